@@ -392,7 +392,7 @@ def check_frozendict(ctx, cls_fq):
                    ok and uses_items, loc='%s:%d' % (h.module.relpath, n.lineno),
                    detail='constructor chain: %s over %s' % (' <- '.join(chain) or '-', src))
     if n_hash == 0:
-        ctx.ob('T22', h.fq, 'hash is computed from the items', False, loc=h.loc)
+        ctx.unknown('T22', h.fq, 'no hash(...) call found', h.loc)
     # failure is cached and re-raised: no path returns a FrozenHashError instance
     w = Walker(prog, model)
     for p in w.paths(h, recv=ci):
@@ -404,7 +404,7 @@ def check_frozendict(ctx, cls_fq):
     for name in ('updated', '__copy__', '__reduce_ex__', 'fromkeys'):
         m = prog.resolve(ci, name)
         if not isinstance(m, FuncInfo):
-            ctx.ob('T8f', '%s.%s' % (cls_fq, name), 'helper exists', False, loc=ci.module.relpath)
+            ctx.unknown('T8f', '%s.%s' % (cls_fq, name), 'method not found', ci.module.relpath)
             continue
         bad = None
         for n in ast.walk(m.node):
